@@ -89,11 +89,27 @@ fn run<S: std::hash::BuildHasher + Default + Clone>(ops: &[Op], max0: usize, cap
     let mut requested = cap0;
     for (step, op) in ops.iter().enumerate() {
         // re-synchronise the oracle with the real cache: every step is judged on its own
-        m.list = c.iter().map(|(k, v)| (*k, v.clone(), entry_size(k, v))).collect();
+        m.list = c.iter().take(c.len() + 2).map(|(k, v)| (*k, v.clone(), entry_size(k, v))).collect();
         m.max = c.max_size();
-        let r = apply(&mut c, &mut m, op, &mut peak, &mut requested);
-        let r = r.and_then(|_| compare(&c, &m, op));
-        if let Err(Fail(msg)) = r { return Err((step, msg)); }
+        let ra = apply(&mut c, &mut m, op, &mut peak, &mut requested);
+        // the structural clauses (memory bound, accounting, mirror traversal) are judged even when the operation's own
+        // contract already failed -- one defect can break several properties at the same step; the clauses that compare
+        // with the oracle's list are only judged when the oracle's step completed
+        let rc = compare(&c, &m, op, ra.is_ok());
+        match (ra, rc) {
+            (Ok(()), Ok(())) => {}
+            (Err(Fail(a)), Ok(())) => return Err((step, a)),
+            (Ok(()), Err(Fail(b))) => return Err((step, b)),
+            (Err(Fail(a)), Err(Fail(b))) => {
+                let ta = a.trim_start_matches('[').split(']').next().unwrap_or("").to_string();
+                let tb = b.trim_start_matches('[').split(']').next().unwrap_or("").to_string();
+                let mut tags: Vec<&str> = vec![];
+                for x in ta.split(' ').chain(tb.split(' ')) { if !x.is_empty() && !tags.contains(&x) { tags.push(x); } }
+                let ma = a.splitn(2, "] ").nth(1).unwrap_or(&a).to_string();
+                let mb = b.splitn(2, "] ").nth(1).unwrap_or(&b).to_string();
+                return Err((step, format!("[{}] {}; {}", tags.join(" "), ma, mb)));
+            }
+        }
     }
     Ok(())
 }
@@ -115,23 +131,30 @@ fn op_class(op: &Op) -> (&'static str, &'static str) {
 
 /// after each operation: the real cache against the oracle's result for THIS operation (the oracle is re-synchronised
 /// with the real cache before every operation, so a divergence is attributed to the operation that caused it)
-fn compare<S: std::hash::BuildHasher>(c: &LruCache<u16, Val, S>, m: &Model, op: &Op) -> Result<(), Fail> {
+fn compare<S: std::hash::BuildHasher>(c: &LruCache<u16, Val, S>, m: &Model, op: &Op, model_ok: bool) -> Result<(), Fail> {
     let (t_members, t_order) = op_class(op);
     // collect every failing aspect (each with its own property tags) instead of stopping at the first
     let mut fails: Vec<(String, String)> = vec![];
     macro_rules! soft { ($t:expr, $c:expr, $($a:tt)*) => { if !($c) { fails.push(($t.to_string(), format!($($a)*))); } } }
     soft!("C01", c.current_size() <= c.max_size(), "memory bound exceeded: {} > {}", c.current_size(), c.max_size());
-    soft!("C01", c.max_size() == m.max, "max_size() = {} expected {}", c.max_size(), m.max);
-    let fwd: Vec<(u16, Val)> = c.iter().map(|(k, v)| (*k, v.clone())).collect();
+    if model_ok { soft!("C01", c.max_size() == m.max, "max_size() = {} expected {}", c.max_size(), m.max); }
+    let fwd: Vec<(u16, Val)> = c.iter().take(c.len() + 2).map(|(k, v)| (*k, v.clone())).collect();   // bounded: a broken list may cycle
     let real_sum: usize = fwd.iter().map(|(k, v)| entry_size(k, v)).sum();
     soft!("C02", c.current_size() == real_sum, "current_size() = {} but the sum of entry_size over the entries held is {}", c.current_size(), real_sum);
     soft!("C02 C07", c.len() == fwd.len(), "len() = {} but iteration yields {} entries", c.len(), fwd.len());
     soft!("C02", c.is_empty() == (c.current_size() == 0), "current_size() is 0 exactly when the cache is empty: violated");
-    let mut bwd: Vec<(u16, Val)> = c.iter().rev().map(|(k, v)| (*k, v.clone())).collect();
+    let mut bwd: Vec<(u16, Val)> = c.iter().rev().take(c.len() + 2).map(|(k, v)| (*k, v.clone())).collect();
     bwd.reverse();
     soft!("C07 C12", bwd == fwd, "reverse iteration does not mirror forward iteration");
     soft!("C13", c.capacity() >= c.len(), "capacity() {} < len() {}", c.capacity(), c.len());
     for e in &fwd { soft!("C07 C04", c.peek(&e.0) == Some(&e.1), "peek({}) does not find the entry that iteration yields", e.0); }
+    if !model_ok {
+        if fails.is_empty() { return Ok(()); }
+        let mut tags: Vec<&str> = vec![];
+        for (t, _) in &fails { for x in t.split(' ') { if !tags.contains(&x) { tags.push(x); } } }
+        let msgs: Vec<String> = fails.iter().map(|(t, m)| format!("({}) {}", t, m)).collect();
+        return Err(Fail(format!("[{}] {}", tags.join(" "), msgs.join("; "))));
+    }
     let exp: Vec<(u16, Val)> = m.list.iter().map(|e| (e.0, e.1.clone())).collect();
     let mut ks_real: Vec<u16> = fwd.iter().map(|e| e.0).collect(); ks_real.sort();
     let mut ks_exp: Vec<u16> = exp.iter().map(|e| e.0).collect(); ks_exp.sort();
